@@ -105,6 +105,27 @@ def run (auth : Bool) (ctx : Bytes) : St → List Ev → St × List Wire
     let (s'', ws) := run auth ctx s' es
     (s'', w ++ ws)
 
+/-! ### time passing during the discovery exchange
+
+  The probe takes `lat` ticks to reach the engine (a slow or retransmitted discovery); the Report
+  is back at once, and `disco_timestamp` is read when it has arrived, so what is cached is the
+  engine's time at the instant of the stamp.  (`requestSlow 0 = request`.) -/
+
+def tick (lat : Nat) (s : St) : St := { s with now := s.now + lat }
+
+def requestSlow (lat : Nat) (auth : Bool) (ctx : Bytes) (s : St) : St × List Wire :=
+  match s.disco with
+  | none => request auth ctx (tick lat s)
+  | some c =>
+    let (w, iw) := sendWith s.agent s.now ctx c
+    if auth && !iw then
+      let s' := tick lat s
+      let c' := discover s'
+      let (w', iw') := sendWith s'.agent s'.now ctx c'
+      ({ s' with disco := if iw' then some c' else none }, [w, .probe, w'])
+    else
+      ({ s with disco := some c }, [w])
+
 /-- a fresh client facing an agent that booted at instant 0 -/
 def init (engineId : Bytes) (boots start : Nat) : St := ⟨start, ⟨engineId, boots, 0⟩, none⟩
 
